@@ -642,8 +642,14 @@ func (h kvHandler) handleKvRawScan(req *kvrpcpb.RawScanRequest) *kvrpcpb.RawScan
 		)
 	}
 
+	kvs := convertToPbPairs(pairs)
+	if req.KeyOnly {
+		for _, kv := range kvs {
+			kv.Value = nil
+		}
+	}
 	return &kvrpcpb.RawScanResponse{
-		Kvs: convertToPbPairs(pairs),
+		Kvs: kvs,
 	}
 }
 
